@@ -31,8 +31,83 @@ def ffReady (g : Graph) (refs : RefMap) (src : String) (prev : Commit) : List De
   | d :: ds => ∃ t wc, refs.get (.dest d) = some t ∧ refs.get (.w d src) = some wc ∧
       g.le t wc = true ∧ g.le prev wc = true ∧ ffReady g refs src wc ds
 
-/-- **`mergeRest` under `ffReady`**: succeeds without creating a commit; every target ends on one of: its own old
-    tip, the previous target's new tip, its integration branch's tip. -/
+theorem ffReady_of_same {g : Graph} {refs refs' : RefMap} {src : String} : ∀ (ds : List Dest) (p : Commit),
+    (∀ d ∈ ds, refs'.get (.dest d) = refs.get (.dest d) ∧ refs'.get (.w d src) = refs.get (.w d src)) →
+    ffReady g refs src p ds → ffReady g refs' src p ds
+  | [], _, _, _ => trivial
+  | d :: ds, _, h, ⟨t, wc, ht, hwc, h1, h2, h3⟩ =>
+    ⟨t, wc, by rw [(h d List.mem_cons_self).1]; exact ht, by rw [(h d List.mem_cons_self).2]; exact hwc, h1, h2,
+      ffReady_of_same ds wc (fun d' hd' => h d' (List.mem_cons_of_mem _ hd')) h3⟩
+
+/-- **`Loc.mergeD` is a fast-forward, under either strategy**, when the integration tip `wc` contains the target's
+    tip `t` and the previous target `prevD`: no commit is created, nothing is asked of git's content merge, and the
+    target ends on one of the three, which contains - and is contained in - `wc`. With `no_octopus` this needs the
+    integration branch to be merged FIRST (`consecutive_merge(dst, w, prev.dst)`): `t` fast-forwards to `wc`, then
+    `prevD` is already contained. (Merged in the other order, `prevD` and `t` are incomparable in general and two
+    merge commits appear: `C03_direct_consecutive_order_matters`.) -/
+theorem Loc.mergeD_ff {l : Loc} (hl : l.OK) (n : Bool) {r : Ref} {t prevD wc : Commit}
+    (hr : l.refs.get r = some t) (hwc : wc < l.g.size) (htw : l.g.le t wc = true) (hpw : l.g.le prevD wc = true) :
+    ∃ l1 m, l.mergeD n r prevD wc = some l1 ∧ l1.OK ∧ l1.g = l.g ∧ (∀ x, x ≠ r → l1.refs.get x = l.refs.get x) ∧
+      l1.refs.get r = some m ∧ m ∈ [t, prevD, wc] ∧ l.g.le wc m = true ∧ l.g.le m wc = true := by
+  have hww : l.g.le wc wc = true := le_refl hl.wf hwc
+  cases n with
+  | false =>
+    have hall : ∀ x ∈ t :: [prevD, wc], l.g.le x wc = true := by
+      intro x hx
+      simp only [List.mem_cons, List.not_mem_nil, or_false] at hx
+      rcases hx with rfl | rfl | rfl
+      · exact htw
+      · exact hpw
+      · exact hww
+    obtain ⟨m, hm, hmem, hwm, hmw⟩ := Loc.merge_ff hl hr (show wc ∈ t :: [prevD, wc] by simp) hall
+    have hmlt : m < l.g.size := (le_size hl.wf hmw).1
+    exact ⟨{ l with refs := l.refs.set r m }, m, by simpa [Loc.mergeD] using hm, ⟨hl.wf, hl.valid.set hmlt⟩, rfl,
+      fun x hx => RefMap.get_set_ne _ _ hx, RefMap.get_set_eq _ _ _, hmem, hwm, hmw⟩
+  | true =>
+    have hh : l.refs.has r = true := (RefMap.has_iff _ _).mpr ⟨t, hr⟩
+    have hall1 : ∀ x ∈ t :: [wc], l.g.le x wc = true := by
+      intro x hx
+      simp only [List.mem_cons, List.not_mem_nil, or_false] at hx
+      rcases hx with rfl | rfl
+      · exact htw
+      · exact hww
+    obtain ⟨n1, hm1, hn1mem, hwn1, hn1w⟩ := Loc.merge_ff hl hr (show wc ∈ t :: [wc] by simp) hall1
+    have hn1lt : n1 < l.g.size := (le_size hl.wf hn1w).1
+    have hl1 : Loc.OK { l with refs := l.refs.set r n1 } := ⟨hl.wf, hl.valid.set hn1lt⟩
+    have hall2 : ∀ x ∈ n1 :: [prevD], l.g.le x n1 = true := by
+      intro x hx
+      simp only [List.mem_cons, List.not_mem_nil, or_false] at hx
+      rcases hx with rfl | rfl
+      · exact le_refl hl.wf hn1lt
+      · exact le_trans hl.wf hpw hwn1
+    obtain ⟨n2, hm2, hn2mem, h12, h21⟩ := Loc.merge_ff (l := { l with refs := l.refs.set r n1 }) hl1
+      (RefMap.get_set_eq _ _ _) (show n1 ∈ n1 :: [prevD] by simp) hall2
+    have hn2lt : n2 < l.g.size := (le_size hl.wf h21).1
+    have e1 : l.merge1 r wc = ({ l with refs := l.refs.set r n1 }, true) := by
+      unfold Loc.merge1; rw [hm1]
+    have e2 : Loc.merge1 { l with refs := l.refs.set r n1 } r prevD =
+        ({ l with refs := (l.refs.set r n1).set r n2 }, true) := by
+      unfold Loc.merge1; rw [hm2]
+    have e3 : l.seq2 r wc prevD = ({ l with refs := (l.refs.set r n1).set r n2 }, true) := by
+      unfold Loc.seq2
+      simp only [e1, if_true]
+      exact e2
+    refine ⟨{ l with refs := (l.refs.set r n1).set r n2 }, n2, by simp [Loc.mergeD, Loc.merge2, hh, e3],
+      ⟨hl.wf, (hl.valid.set hn1lt).set hn2lt⟩, rfl, ?_, RefMap.get_set_eq _ _ _, ?_, ?_, ?_⟩
+    · intro x hx
+      simp only
+      rw [RefMap.get_set_ne _ _ hx, RefMap.get_set_ne _ _ hx]
+    · simp only [List.mem_cons, List.not_mem_nil, or_false] at hn1mem hn2mem ⊢
+      rcases hn2mem with rfl | rfl
+      · rcases hn1mem with rfl | rfl
+        · exact Or.inl rfl
+        · exact Or.inr (Or.inr rfl)
+      · exact Or.inr (Or.inl rfl)
+    · exact le_trans hl.wf hwn1 h12
+    · exact le_trans hl.wf h21 hn1w
+
+/-- **`mergeRest` under `ffReady`** (either strategy): succeeds without creating a commit; every target ends on one
+    of: its own old tip, the previous target's new tip, its integration branch's tip. -/
 theorem mergeRest_ff {pr : PrInfo} : ∀ (ds : List Dest) {l : Loc} {prevD pw : Commit}, l.OK → ds.Nodup →
     (∀ d ∈ ds, ∀ t, l.refs.get (.dest d) = some t → t < l.g.size) →
     prevD < l.g.size → l.g.le prevD pw = true → ffReady l.g l.refs pr.src pw ds →
@@ -46,48 +121,34 @@ theorem mergeRest_ff {pr : PrInfo} : ∀ (ds : List Dest) {l : Loc} {prevD pw : 
     obtain ⟨t, wc, ht, hwc, htw, hpww, hrest⟩ := hready
     rw [List.nodup_cons] at hnd
     have hwclt : wc < l.g.size := hl.valid _ _ hwc
-    have hall : ∀ x ∈ t :: [prevD, wc], l.g.le x wc = true := by
-      intro x hx
-      simp only [List.mem_cons, List.not_mem_nil, or_false] at hx
-      rcases hx with rfl | rfl | rfl
-      · exact htw
-      · exact le_trans hl.wf hpw hpww
-      · exact le_refl hl.wf hwclt
-    obtain ⟨n, hm, hnmem, hwn, hnw⟩ := Loc.merge_ff hl ht
-      (show wc ∈ t :: [prevD, wc] by simp) hall
-    have hnlt : n < l.g.size := (le_size hl.wf hnw).1
-    have hl1 : Loc.OK { l with refs := l.refs.set (.dest d) n } := ⟨hl.wf, hl.valid.set hnlt⟩
-    have hready1 : ffReady l.g (l.refs.set (.dest d) n) pr.src wc ds := by
-      have hgen : ∀ (ds' : List Dest) (p : Commit), d ∉ ds' → ffReady l.g l.refs pr.src p ds' →
-          ffReady l.g (l.refs.set (.dest d) n) pr.src p ds' := by
-        intro ds'
-        induction ds' with
-        | nil => intro _ _ _; trivial
-        | cons d' ds' ih =>
-          intro p hni hr
-          obtain ⟨t', w', ht', hw', h1, h2, h3⟩ := hr
-          have hne : d' ≠ d := fun he => hni (by rw [he]; exact List.mem_cons_self)
-          refine ⟨t', w', ?_, ?_, h1, h2, ih w' (fun hm' => hni (List.mem_cons_of_mem _ hm')) h3⟩
-          · rw [RefMap.get_set_ne _ _ (by intro he; simp only [Ref.dest.injEq] at he; exact hne he)]; exact ht'
-          · rw [RefMap.get_set_ne _ _ (by intro he; cases he)]; exact hw'
-      exact hgen ds wc hnd.1 hrest
-    have hval1 : ∀ d' ∈ ds, ∀ t', (l.refs.set (.dest d) n).get (.dest d') = some t' → t' < l.g.size := by
-      intro d' hd' t' ht'
-      exact hl1.valid _ _ ht'
-    obtain ⟨l', hm', hg', hsame', hres'⟩ := mergeRest_ff ds (l := { l with refs := l.refs.set (.dest d) n })
-      (prevD := n) (pw := wc) hl1 hnd.2 hval1 hnlt hnw hready1
-    refine ⟨l', ?_, hg', ?_, ?_⟩
-    · simp only [mergeRest, hwc, hm, RefMap.get_set_eq]
+    obtain ⟨l1, n, hm, hl1, hg1, hsame1, hn, hnmem, hwn, hnw⟩ :=
+      Loc.mergeD_ff hl pr.noOct ht hwclt htw (le_trans hl.wf hpw hpww)
+    have hnlt : n < l1.g.size := hl1.valid _ _ hn
+    have hdne : ∀ d' : Dest, d' ≠ d → Ref.dest d' ≠ .dest d := by
+      intro d' hne he; simp only [Ref.dest.injEq] at he; exact hne he
+    have hwne : ∀ d' : Dest, Ref.w d' pr.src ≠ .dest d := by intro d' he; cases he
+    have hready1 : ffReady l1.g l1.refs pr.src wc ds := by
+      rw [hg1]
+      refine ffReady_of_same ds wc ?_ hrest
+      intro d' hd'
+      have hne : d' ≠ d := fun he => hnd.1 (he ▸ hd')
+      exact ⟨hsame1 _ (hdne d' hne), hsame1 _ (hwne d')⟩
+    have hval1 : ∀ d' ∈ ds, ∀ t', l1.refs.get (.dest d') = some t' → t' < l1.g.size :=
+      fun d' _ t' ht' => hl1.valid _ _ ht'
+    obtain ⟨l', hm', hg', hsame', hres'⟩ := mergeRest_ff ds (l := l1) (prevD := n) (pw := wc) hl1 hnd.2 hval1 hnlt
+      (by rw [hg1]; exact hnw) hready1
+    refine ⟨l', ?_, hg'.trans hg1, ?_, ?_⟩
+    · simp only [mergeRest, hwc, hm, hn]
       exact hm'
     · intro x hx
       rw [hsame' x (fun d' hd' => hx d' (List.mem_cons_of_mem _ hd'))]
-      exact RefMap.get_set_ne _ _ (hx d List.mem_cons_self)
+      exact hsame1 x (hx d List.mem_cons_self)
     · intro d' hd'
       rcases List.mem_cons.mp hd' with rfl | hd''
       · refine ⟨n, ?_, ?_⟩
         · rw [hsame' _ (fun d'' hd'' he => by
             simp only [Ref.dest.injEq] at he; subst he; exact hnd.1 hd'')]
-          exact RefMap.get_set_eq _ _ _
+          exact hn
         · simp only [List.mem_cons, List.not_mem_nil, or_false] at hnmem
           rcases hnmem with rfl | rfl | rfl
           · exact Or.inl ht
@@ -95,11 +156,9 @@ theorem mergeRest_ff {pr : PrInfo} : ∀ (ds : List Dest) {l : Loc} {prevD pw : 
           · exact Or.inr (Or.inr ⟨d', List.mem_cons_self, Or.inl hwc⟩)
       · obtain ⟨n', hn', hcase⟩ := hres' d' hd''
         have hne : d' ≠ d := fun he => hnd.1 (by rw [← he]; exact hd'')
-        have hdne : (Ref.dest d') ≠ .dest d := by
-          intro he; simp only [Ref.dest.injEq] at he; exact hne he
         refine ⟨n', hn', ?_⟩
         rcases hcase with h | h | ⟨d'', hd''', h | h⟩
-        · left; rw [← RefMap.get_set_ne l.refs n hdne]; exact h
+        · left; rw [← hsame1 _ (hdne d' hne)]; exact h
         · subst h
           -- the previous target's new tip is itself an existing tip
           simp only [List.mem_cons, List.not_mem_nil, or_false] at hnmem
@@ -109,12 +168,11 @@ theorem mergeRest_ff {pr : PrInfo} : ∀ (ds : List Dest) {l : Loc} {prevD pw : 
           · exact Or.inr (Or.inr ⟨d, List.mem_cons_self, Or.inl hwc⟩)
         · right; right
           refine ⟨d'', List.mem_cons_of_mem _ hd''', Or.inl ?_⟩
-          rw [← RefMap.get_set_ne l.refs n (show Ref.w d'' pr.src ≠ .dest d by intro he; cases he)]; exact h
+          rw [← hsame1 _ (hwne d'')]; exact h
         · right; right
           have hne2 : d'' ≠ d := fun he => hnd.1 (by rw [← he]; exact hd''')
           refine ⟨d'', List.mem_cons_of_mem _ hd''', Or.inr ?_⟩
-          rw [← RefMap.get_set_ne l.refs n (show Ref.dest d'' ≠ .dest d by
-            intro he; simp only [Ref.dest.injEq] at he; exact hne2 he)]; exact h
+          rw [← hsame1 _ (hdne d'' hne2)]; exact h
 
 end BertE.Flow
 
@@ -132,8 +190,8 @@ theorem ffReady_congr {g : Graph} {refs refs' : RefMap} {src : String}
     integration branch contains its target's tip and its predecessor's tip, the merge creates no commit and every
     target ends on its own old tip (it does not move), on the source tip, on the tip of an integration branch, or
     on a commit that already was the tip of a target. -/
-theorem directMerge_ff {s : Sys} {l4 : Loc} (hl : l4.OK) (pr : PrInfo) {sc dc : Commit} (d1 : Dest) (ds : List Dest)
-    (hnd : (d1 :: ds).Nodup) (pre : List Op)
+theorem directMerge_ff {s : Sys} {l4 : Loc} (hl : l4.OK) (pr : PrInfo) {sc dc : Commit}
+    (d1 : Dest) (ds : List Dest) (hnd : (d1 :: ds).Nodup) (pre : List Op)
     (hdc : l4.refs.get (.dest d1) = some dc) (hsc : sc < l4.g.size) (hle : l4.g.le dc sc = true)
     (hready : ffReady l4.g l4.refs pr.src sc ds) :
     (directMerge s l4 pr sc (d1 :: ds) pre).g = l4.g ∧
@@ -150,7 +208,7 @@ theorem directMerge_ff {s : Sys} {l4 : Loc} (hl : l4.OK) (pr : PrInfo) {sc dc : 
     rw [get_delRefs, if_neg]
     rw [← hqs]
     split
-    · unfold qOnly
+    · rw [mem_qOnly]; unfold qRaw
       simp only [List.mem_map, List.mem_filter, not_exists, not_and]
       intro x hx hxe
       rw [hxe] at hx; simp at hx
@@ -160,7 +218,7 @@ theorem directMerge_ff {s : Sys} {l4 : Loc} (hl : l4.OK) (pr : PrInfo) {sc dc : 
     rw [get_delRefs, if_neg]
     rw [← hqs]
     split
-    · unfold qOnly
+    · rw [mem_qOnly]; unfold qRaw
       simp only [List.mem_map, List.mem_filter, not_exists, not_and]
       intro x hx hxe
       rw [hxe] at hx; simp at hx
